@@ -312,7 +312,7 @@ class QInUnit(Convert):
 @contract
 class QUnprefixed(Contract):
     qual = "measured.Quantity.unprefixed"
-    props = ("C06", "C11", "C12")
+    props = ("C03", "C04", "C05", "C06", "C10", "C11", "C12")
     inv = ("I_D", "I_P", "I_U")
     modifies = _UnitBin.modifies + ("new:Quantity",)
     ret = T_QTY
@@ -453,7 +453,6 @@ class QRoot(Contract):
 
     def requires(self, c, a):
         yield "wf-self", wf_qty(c, a.self)
-        yield "float-magnitude", mkind(c, a.self) != K_DEC
 
     def raises(self, c, a):
         from .c_unit import UnitRoot
@@ -466,6 +465,7 @@ class QRoot(Contract):
         n = a.degree.z
         yield "fresh-quantity", z3.And(c.alive(r), z3.Not(o.alive(r)))
         yield "degree-zero", z3.Implies(n == 0, z3.And(c.f(r, "unit") == One.ref, mval(c, r) == 1))
+        yield "decimal-preserved", z3.Implies(n != 0, kind_rule(mkind(c, r), mkind(o, a.self)))
         yield "dimension", z3.Implies(n != 0, pointwise_rel(c, qdim(c, r), lambda i, e: e * n == dexp(o, qdim(o, a.self), i)))
         yield "magnitude", z3.Implies(n != 0, mval(c, r) == rpowr(mval(o, a.self), 1 / z3.ToReal(n)))
         yield "unit-is-root", z3.Implies(n != 0, z3.And(live(c, qunit(c, r)),
